@@ -121,11 +121,16 @@ Proof.
   - right. cbn. rewrite (written_iff w H) in EW. unfold under_header. rewrite EW. cbn. split; [lia|reflexivity].
 Qed.
 
+Lemma flush_consistent w k : consistent w -> consistent (flush w k).
+Proof.
+  intro H. destruct k; cbn [flush]; try exact H; destruct (written w); try exact H; apply write_header_consistent; exact H.
+Qed.
+
 Lemma run_actions_consistent acts fin : forall w, consistent w -> consistent (snd (run_actions acts fin w)).
 Proof.
   induction acts as [|a rest IH]; intros w H; cbn [run_actions].
   - exact H.
-  - destruct a; apply IH; [apply write_header_consistent|apply write_consistent]; exact H.
+  - destruct a; apply IH; [apply write_header_consistent|apply write_consistent|apply flush_consistent]; exact H.
 Qed.
 
 Lemma handle500_response_proof : forall w, consistent w -> written w = false ->
@@ -215,12 +220,9 @@ Lemma apply_op_open t o : t_write t = true -> t_root t <> None ->
   t_write (apply_op t o) = true /\ t_root (apply_op t o) <> None.
 Proof.
   intros Hw Hr. unfold apply_op. destruct (t_root t) as [rs|] eqn:E; [|congruence].
-  destruct o as [r|r|r].
-  - rewrite Hw. cbn [negb]. destruct (mem r rs).
-    + split; [exact Hw|rewrite E; discriminate].
-    + cbn. split; [reflexivity|discriminate].
-  - rewrite Hw. cbn. split; [reflexivity|discriminate].
-  - split; [exact Hw|rewrite E; discriminate].
+  rewrite Hw. cbn [negb].
+  destruct o as [k v|k v|k|ms|k]; try (destruct (mem k rs)); cbn;
+    try (split; [reflexivity|discriminate]); split; try exact Hw; rewrite E; discriminate.
 Qed.
 
 Lemma fold_open ops : forall t, t_write t = true -> t_root t <> None ->
@@ -231,13 +233,17 @@ Proof.
 Qed.
 
 Lemma apply_op_ro t o : t_write t = false -> apply_op t o = t.
-Proof. intro Hw. unfold apply_op. destruct (t_root t); [|reflexivity]. destruct o; rewrite ?Hw; reflexivity. Qed.
+Proof. intro Hw. unfold apply_op. destruct (t_root t); [|reflexivity]. rewrite Hw. reflexivity. Qed.
 
 Lemma fold_ro ops : forall t, t_write t = false -> fold_left apply_op ops t = t.
 Proof. induction ops as [|o ops IH]; intros t Hw; cbn [fold_left]; [reflexivity|]. rewrite apply_op_ro by exact Hw. apply IH, Hw. Qed.
 
 Lemma abort_open st t : t_write t = true -> t_root t <> None ->
   fst (abort st t) = {| locked := false; published := published st |}.
+Proof. intros Hw Hr. unfold abort. rewrite Hw. cbn [negb]. destruct (t_root t); [reflexivity|congruence]. Qed.
+
+Lemma abort_open_full st t : t_write t = true -> t_root t <> None ->
+  abort st t = ({| locked := false; published := published st |}, {| t_write := true; t_root := None |}).
 Proof. intros Hw Hr. unfold abort. rewrite Hw. cbn [negb]. destruct (t_root t); [reflexivity|congruence]. Qed.
 
 Lemma unlocked_eta st : locked st = false -> {| locked := false; published := published st |} = st.
@@ -252,7 +258,7 @@ Proof.
   intros k st ops id Hl Hk.
   assert (WP : write_possible st = true).
   { unfold write_possible, helper, txn_begin. rewrite Hl.
-    destruct (op_fails (published st) (OpHandle (S2B "/probe"))); [reflexivity|].
+    destruct (op_fails (published st) (OpHandle (S2B "GET /probe") 0%N)); [reflexivity|].
     destruct (commit _ _); reflexivity. }
   split; [|exact WP].
   destruct k; cbn [run_txn].
@@ -262,6 +268,9 @@ Proof.
   - unfold view, txn_begin. rewrite fold_ro by reflexivity. unfold abort. cbn. reflexivity.
   - destruct (Hk eq_refl) as [o ->]. unfold helper, txn_begin. rewrite Hl.
     rewrite abort_open by (cbn; congruence). cbn [published]. rewrite unlocked_eta by exact Hl. reflexivity.
+  - unfold manual, txn_begin. rewrite Hl.
+    destruct (fold_open ops {| t_write := true; t_root := Some (published st) |} eq_refl ltac:(discriminate)) as [H1 H2].
+    rewrite abort_open by assumption. cbn [published]. rewrite unlocked_eta by exact Hl. reflexivity.
 Qed.
 
 (* whatever the ending: the lock is free afterwards and a later write is possible; routes
@@ -273,7 +282,7 @@ Proof.
   intros k st ops e out st' Hl Hrun.
   assert (WP : forall s, locked s = false -> write_possible s = true).
   { intros s Hs. unfold write_possible, helper, txn_begin. rewrite Hs.
-    destruct (op_fails (published s) (OpHandle (S2B "/probe"))); [reflexivity|]. destruct (commit _ _); reflexivity. }
+    destruct (op_fails (published s) (OpHandle (S2B "GET /probe") 0%N)); [reflexivity|]. destruct (commit _ _); reflexivity. }
   assert (G : locked st' = false /\ (out <> TOk -> published st' = published st)).
   { destruct k; cbn [run_txn] in Hrun.
     - unfold updates, txn_begin in Hrun. rewrite Hl in Hrun.
@@ -301,7 +310,15 @@ Proof.
         * destruct (apply_op_open {| t_write := true; t_root := Some (published st) |} o eq_refl ltac:(discriminate)) as [H1 H2].
           unfold commit in Hrun. rewrite H1 in Hrun. cbn [negb] in Hrun.
           destruct (t_root (apply_op _ o)) as [rs|]; [|congruence].
-          cbn in Hrun. inversion Hrun; subst. split; [reflexivity|congruence]. }
+          cbn in Hrun. inversion Hrun; subst. split; [reflexivity|congruence].
+    - unfold manual, txn_begin in Hrun. rewrite Hl in Hrun.
+      destruct (fold_open ops {| t_write := true; t_root := Some (published st) |} eq_refl ltac:(discriminate)) as [H1 H2].
+      destruct e.
+      + rewrite abort_open in Hrun by assumption. inversion Hrun; subst. split; reflexivity.
+      + rewrite abort_open_full in Hrun by assumption. cbn in Hrun. inversion Hrun; subst. split; reflexivity.
+      + unfold commit in Hrun. rewrite H1 in Hrun. cbn [negb] in Hrun.
+        destruct (t_root (fold_left apply_op ops _)) as [rs|]; [|congruence].
+        cbn in Hrun. inversion Hrun; subst. split; [reflexivity|congruence]. }
   destruct G as [G1 G2]. split; [exact G1|]. split; [apply WP; exact G1|exact G2].
 Qed.
 
